@@ -280,7 +280,7 @@ def run(ctx):
     # ---- U7
     n7 = check_shared_state(ctx, prog, ENV, "minijinja::")
     ctx.floor("C15.U7 fields of Environment and the stores it owns", n7, 15)
-    sub7 = type(ctx)(ctx.prop, ctx.tier, ctx.repo)
+    sub7 = ctx.fresh()
     check_shared_state(sub7, ctx.controls, "mjsa_controls::c15::SharedCache", "mjsa_controls::")
     ctx.control("C15.U7", any(not o[2] for o in sub7.obligations))
 
